@@ -115,6 +115,14 @@ def check(run: Run) -> None:
     run.rule("C05.R2", "every indexed note has a ZID: _add_zids dominates the conversion, gives every ZID-less note a fresh one and queues the write-back; index-side and file-side drop the same leading word")
     run.rule("C05.R3", "write-back conservation, by abstract runs of _update_zo_file over virtual pages (adjacent multi-line notes; U+2028 / form feed / CR above the notes; first and last line): the text written is the page text with only the first line of each listed note replaced")
     run.rule("C05.R4", "wiring: every constructed message class has a registered handler; NewZorgNotesEvent reaches the page write, which is followed by the hash refresh")
+    run.rule("C05.R5", "running the commands again changes no indexed note: an unchanged page is skipped, a processed page first loses its previous rows (also when file_hash.json does not "
+                       "know it: lost map, restricted reindex), by the abstract reindex runs of C06.R1 / C06.R2, adopted here")
+    from ..core import Run as _Run
+    from ..indexscen import reindex_rules
+
+    sub = _Run("C06", run.tier, run.repo)
+    reindex_rules(sub, model, dict(change="C06.R1", order="C06.R2", stale="C06.R3", ack="C06.R4"))
+    run.floor("adopted reindex obligations", run.adopt(sub, ("C06.R1", "C06.R2"), "C05.R5"), 4)
     converter_coverage(run, model)
     zids_before_index(run, model, "C05.R2")
     from .c07 import allocated_zids_lex_as_zids
